@@ -380,6 +380,40 @@ class Gen:
             self.vars[g]['iv'] = (lo, hi)
         return True
 
+    def s_buffer2d(self):
+        """a 2-D buffer filled by broadcasting assignments: buf[0:m, :] = vector, buf[:, k] = scalar"""
+        vec = self.pick(lambda v: len(v['shape']) == 1 and not v.get('buf'))
+        if vec is None:
+            return False
+        n = self.vars[vec]['shape'][0]
+        m = self.rng.randint(2, 3)
+        self.steps.append({'op': 'zeros', 'shape': [m, n], 'like': vec})
+        buf = self.new((m, n), (0.0, 0.0), buf=True)
+        self.steps.append({'op': 'setbc', 'buf': buf, 'val': vec, 'mode': 'rows'})
+        lo, hi = min(0.0, self.vars[vec]['iv'][0]), max(0.0, self.vars[vec]['iv'][1])
+        if self.rng.random() < 0.6:
+            sc = self.pick(lambda v: v['shape'] == () and not v.get('view'))
+            if sc is not None:
+                k = self.rng.randrange(n)
+                self.steps.append({'op': 'setbc', 'buf': buf, 'val': sc, 'mode': 'col', 'k': k})
+                lo, hi = min(lo, self.vars[sc]['iv'][0]), max(hi, self.vars[sc]['iv'][1])
+        self.vars[buf]['iv'] = (lo, hi)
+        return True
+
+    def s_fftfilter(self):
+        """a real-linear filter through the complex FFT along one axis: real(ifft(fft(x, axis) * H, axis))"""
+        a = self.pick(lambda v: len(v['shape']) in (1, 2) and max(abs(v['iv'][0]), abs(v['iv'][1])) <= 6)
+        if a is None:
+            return False
+        sh = self.vars[a]['shape']
+        axis = self.rng.choice(list(range(-len(sh), len(sh))))
+        M = max(abs(self.vars[a]['iv'][0]), abs(self.vars[a]['iv'][1])) * 3.0 * sh[axis]
+        if M > 40:
+            return False
+        self.steps.append({'op': 'fftfilter', 'a': a, 'axis': axis})
+        self.new(sh, (-M, M))
+        return True
+
     def s_linalg(self):
         """well-conditioned matrix from a vector/matrix value, then inv / solve / det / logdet / trace / factorisation outputs"""
         a = self.pick(lambda v: int(np.prod(v['shape'])) >= 1 and max(abs(v['iv'][0]), abs(v['iv'][1])) <= 6)
@@ -405,7 +439,7 @@ class Gen:
         for sh in input_shapes:
             self.new(sh, (-BOX, BOX))
         kinds = kinds or ['ew', 'ew', 'bin', 'bin', 'binc', 'getitem', 'sum', 'transpose', 'reshape', 'dot', 'dotc',
-                          'outer', 'prod', 'buffer', 'linalg']
+                          'outer', 'prod', 'buffer', 'linalg', 'fftfilter', 'buffer2d']
         nsteps = self.rng.randint(1, self.maxsteps)
         tries = 0
         made = 0
@@ -518,6 +552,13 @@ def run_program(prog, inputs):
             vals.append(algopy.dot(vals[st['a']], c) if st['side'] == 'r' else algopy.dot(c, vals[st['a']]))
         elif op == 'outer':
             vals.append(algopy.outer(vals[st['a']], vals[st['b']]))
+        elif op == 'fftfilter':
+            v = vals[st['a']]
+            n = v.shape[st['axis']]
+            hshape = [1] * len(v.shape)
+            hshape[st['axis']] = n
+            H = ((1.0 + 0.25 * np.arange(n)) + 0.5j * (np.arange(n) % 2)).reshape(hshape)
+            vals.append(algopy.real(algopy.fft.ifft(algopy.fft.fft(v, axis=st['axis']) * H, axis=st['axis'])))
         elif op == 'zeros':
             vals.append(algopy.zeros(tuple(st['shape']), dtype=vals[st['like']]))
         elif op == 'ones':
@@ -525,6 +566,11 @@ def run_program(prog, inputs):
         elif op == 'setitem':
             idx = tuple(st['idx'])
             vals[st['buf']][idx[0] if len(idx) == 1 else idx] = vals[st['val']]
+        elif op == 'setbc':
+            if st['mode'] == 'rows':
+                vals[st['buf']][0:vals[st['buf']].shape[0], :] = vals[st['val']]
+            else:
+                vals[st['buf']][:, st['k']] = vals[st['val']]
         elif op == 'mkmat':
             vals.append(_mkmat(vals[st['a']], st['n'], st['sym'], st.get('perm')))
         elif op == 'la':
